@@ -1,7 +1,39 @@
-import PvlModel.Model.Spec
+import PvlModel.Model.Encoder
+import PvlModel.Model.Parser
 /-!
-# C16
-(theorems are added below as they are proved; see DESIGN §5)
+# C16 — parser, decoder and encoder instances carry no state between calls
+
+In the model a parser instance's only state that outlives a call is `errors` (and `doc`, which
+`parse` overwrites first).  `parseWith … prior text` is one `parse()` call on an instance whose
+`errors` list is `prior` when the call starts.  Decoder and encoder models have no instance state
+at all — that is the modelling assumption the correspondence check (one real instance fed a whole
+history vs fresh instances) is there to test.
 -/
 namespace Pvl
+
+/-- one call: result, `errors` afterwards -/
+def call (g : Grammar) (d : Dec) (k : ParserKind) (prior : List Int) (text : Str) : ParseResult :=
+  parseWith g d k prior text
+
+/-- **C16, one step**: the outcome of a call does not depend on what the instance held before. -/
+theorem C16_parser_step (g : Grammar) (d : Dec) (k : ParserKind) (prior : List Int) (text : Str) :
+    call g d k prior text = call g d k [] text := rfl
+
+/-- run a whole history of texts through one instance; the outcome of each call -/
+def history (g : Grammar) (d : Dec) (k : ParserKind) : List Int → List Str → List ParseResult
+  | _, [] => []
+  | prior, t :: r =>
+    let res := call g d k prior t
+    res :: history g d k res.errors r
+
+/-- **C16, histories**: for every sequence of texts (successful or failing, any length), each call
+    on the shared instance gives exactly what a fresh instance gives for that text alone. -/
+theorem C16_parser_history (g : Grammar) (d : Dec) (k : ParserKind) (prior : List Int) (texts : List Str) :
+    history g d k prior texts = texts.map (fun t => call g d k [] t) := by
+  induction texts generalizing prior with
+  | nil => rfl
+  | cons t r ih =>
+    simp only [history, List.map_cons]
+    rw [ih, C16_parser_step]
+
 end Pvl
